@@ -33,7 +33,10 @@ static int op_bound = 5, cb_action_bound = 2;
 static int want_c04 = 1, want_c05 = 1;
 #define FD0 3
 static const int prios[] = {0, 1, 31};
-static const long tmo_us[] = {0, 1500, 3000};
+static const long long tmo_us[] = {0, 1500, 3000, 3600000000LL};	/* the last one: 1 hour, far beyond 2^31 us */
+#define NTMO 4
+/* just before a second boundary, so that deadlines, sleeps and poll time-outs cross it */
+#define CLOCK_START 1998000LL
 
 #define FAIL04(sig, ...) do { if (want_c04) mc_fail("C04:" sig, __VA_ARGS__); } while (0)
 #define FAIL05(sig, ...) do { if (want_c05) mc_fail("C05:" sig, __VA_ARGS__); } while (0)
@@ -50,7 +53,7 @@ clock_gettime(clockid_t c, struct timespec * tp)
 
 /* ---- monitor ---- */
 enum { K_IMM = 1, K_NET, K_TMR };
-struct reg { int kind, live; int prio; long seq; int fd, dir, ready_seen, reported_latest; long long deadline; long tmo; void * h; };
+struct reg { int kind, live; int prio; long seq; int fd, dir, ready_seen, reported_latest; long long deadline; long long tmo; void * h; };
 #define MAXREG 96
 static struct reg R[MAXREG]; static int nreg; static long seqno;
 static int hup_latest[16];
@@ -151,7 +154,7 @@ poll(struct pollfd * fds, nfds_t n, int timeout)
 	 * then: nothing and clock advances by half the timeout; EINTR with an
 	 * interrupt request; EINTR alone.
 	 */
-	nopt = 2 + k + (int)n + 3;
+	nopt = 2 + k + (int)n + 3 + (k >= 3 ? k : 0);	/* with >= 3 requested events also: everything except one of them */
 	c = mc_choose(nopt, "poll");
 	for (j = 0; j < 16; j++) hup_latest[j] = 0;
 	for (j = 0; j < nreg; j++) R[j].reported_latest = 0;
@@ -160,8 +163,9 @@ poll(struct pollfd * fds, nfds_t n, int timeout)
 	else if (c < 2 + k) fds[opt[c - 2].idx].revents |= opt[c - 2].bit;
 	else if (c < 2 + k + (int)n) { i = (nfds_t)(c - 2 - k); fds[i].revents = (c & 1) ? POLLHUP : POLLERR; if (fds[i].fd < 16) hup_latest[fds[i].fd] = 1; }
 	else if (c == 2 + k + (int)n) { if (timeout > 0) now_us += (long long)timeout * 500; mc_note(" -> 0 (early wake-up), t=%lld", now_us); return (0); }
+	else if (c >= 2 + k + (int)n + 3) { int ex = c - (2 + k + (int)n + 3); for (j = 0; j < k; j++) if (j != ex) fds[opt[j].idx].revents |= opt[j].bit; }
 	else if (c == 2 + k + (int)n + 1) { events_interrupt(); intr_seen_in_run = 1; if (stop_expected == 0) stop_expected = 2; mc_note(" -> EINTR + interrupt request"); errno = EINTR; return (-1); }
-	else { mc_note(" -> EINTR"); errno = EINTR; return (-1); }
+	else if (c == 2 + k + (int)n + 2) { mc_note(" -> EINTR"); errno = EINTR; return (-1); }
 	for (i = 0; i < n; i++) if (fds[i].revents) {
 		cnt++;
 		for (j = 0; j < nreg; j++) if (R[j].live && R[j].kind == K_NET && R[j].fd == fds[i].fd) {
@@ -221,9 +225,9 @@ op_reg_tmr(int t)
 	int id; struct timeval tv;
 	if (live_count(K_TMR) >= NTIMER) return;
 	id = new_reg(K_TMR); R[id].tmo = tmo_us[t]; R[id].deadline = now_us + tmo_us[t];
-	tv.tv_sec = 0; tv.tv_usec = tmo_us[t];
+	tv.tv_sec = (time_t)(tmo_us[t] / 1000000); tv.tv_usec = (suseconds_t)(tmo_us[t] % 1000000);
 	R[id].h = events_timer_register(callback, (void *)(uintptr_t)(id + 1), &tv);
-	mc_note("events_timer_register(%ld us) -> #%d deadline %lld", tmo_us[t], id, R[id].deadline);
+	mc_note("events_timer_register(%lld us) -> #%d deadline %lld", tmo_us[t], id, R[id].deadline);
 	if (R[id].h == NULL) FAIL04("register", "events_timer_register failed");
 }
 static void op_cancel_imm(int j){ mc_note("events_immediate_cancel(#%d)", j); events_immediate_cancel(R[j].h); R[j].live = 0; }
@@ -235,12 +239,12 @@ static void
 op_menu(int ctx)
 {
 	int nimm = live_count(K_IMM), ntm = live_count(K_TMR);
-	int n = 3 + NFD * 2 + NFD * 2 + 3 + nimm + ntm + ntm + (ctx ? 1 : 0);
+	int n = 3 + NFD * 2 + NFD * 2 + NTMO + nimm + ntm + ntm + (ctx ? 1 : 0);
 	int c = mc_pick(n, ctx ? "callback-op" : "main-op");
 	if (c < 3) { op_reg_imm(c); return; } c -= 3;
 	if (c < NFD * 2) { op_reg_net(FD0 + c / 2, c % 2); return; } c -= NFD * 2;
 	if (c < NFD * 2) { op_cancel_net(FD0 + c / 2, c % 2); return; } c -= NFD * 2;
-	if (c < 3) { op_reg_tmr(c); return; } c -= 3;
+	if (c < NTMO) { op_reg_tmr(c); return; } c -= NTMO;
 	if (c < nimm) { op_cancel_imm(nth_live(K_IMM, c)); return; } c -= nimm;
 	if (c < ntm) { op_cancel_tmr(nth_live(K_TMR, c)); return; } c -= ntm;
 	if (c < ntm) { op_reset_tmr(nth_live(K_TMR, c)); return; } c -= ntm;
@@ -281,18 +285,20 @@ callback(void * cookie)
 	if (mc_failed()) return (0);
 	if (cb_actions_used >= cb_action_bound) return (0);
 	in_callback = 1;
-	a = mc_pick(5, "callback-action");
-	if (a) cb_actions_used++;
-	switch (a) {
-	case 0: break;
-	case 1: mc_note("  returns 7"); stop_expected = 1; if (first_rc == 0) first_rc = 7; in_callback = 0; return (7);
-	case 2: mc_note("  events_interrupt()"); events_interrupt(); intr_seen_in_run = 1; stop_expected = 1; break;
-	case 3:	/* re-register itself */
-		if (r->kind == K_IMM) { int p; for (p = 0; p < 3; p++) if (prios[p] == r->prio) op_reg_imm(p); }
-		else if (r->kind == K_NET) op_reg_net(r->fd, r->dir);
-		else { int t; for (t = 0; t < 3; t++) if (tmo_us[t] == r->tmo) op_reg_tmr(t); }
-		break;
-	case 4: op_menu(1); break;
+	/* a callback may do several things (cancel one event and register others) as long as the budget lasts */
+	while (cb_actions_used < cb_action_bound && !mc_failed()) {
+		a = mc_pick(5, "callback-action");
+		if (a == 0) break;
+		cb_actions_used++;
+		if (a == 1) { mc_note("  returns 7"); stop_expected = 1; if (first_rc == 0) first_rc = 7; in_callback = 0; return (7); }
+		if (a == 2) { mc_note("  events_interrupt()"); events_interrupt(); intr_seen_in_run = 1; stop_expected = 1; continue; }
+		if (a == 3) {	/* re-register itself */
+			if (r->kind == K_IMM) { int p; for (p = 0; p < 3; p++) if (prios[p] == r->prio) op_reg_imm(p); }
+			else if (r->kind == K_NET) op_reg_net(r->fd, r->dir);
+			else { int t; for (t = 0; t < NTMO; t++) if (tmo_us[t] == r->tmo) op_reg_tmr(t); }
+			continue;
+		}
+		op_menu(1);
 	}
 	in_callback = 0;
 	return (0);
@@ -317,7 +323,7 @@ static void
 body(void)
 {
 	const char * inv;
-	nreg = 0; seqno = 0; now_us = 1000000; ops_used = 0; cb_actions_used = 0; done_flag = 0; in_run = 0; stop_expected = 0; npolls = 0;
+	nreg = 0; seqno = 0; now_us = CLOCK_START; ops_used = 0; cb_actions_used = 0; done_flag = 0; in_run = 0; stop_expected = 0; npolls = 0;
 	ran_in_run = 0; intr_seen_in_run = 0; runnable_at_entry = 0; first_rc = 0; in_callback = 0; intr_pending = 0;
 	memset(hup_latest, 0, sizeof(hup_latest));
 	for (;;) {
